@@ -2,19 +2,193 @@
 The inverse Burrows-Wheeler transform of bwt.go inverts the rotation-sort BWT.
 -/
 import Compress.Bzip2.Stages
+import Compress.Proofs.Bzip2BWTSort
+import Compress.Proofs.Bzip2BWTPerm
+import Compress.Proofs.Bzip2BWTLF
 
 namespace Compress.Proofs.Bzip2BWT
 open Compress Compress.Bzip2
 
 /-- the forward transform is a permutation of the input with a valid origin row. -/
 theorem bwtSpec_shape (xs : List UInt8) (h : xs ≠ []) :
-    (bwtSpec xs).1.length = xs.length ∧ (bwtSpec xs).2 < xs.length ∧ (bwtSpec xs).1.Perm xs := by
-  sorry
+    (bwtSpec xs).1.length = xs.length ∧ (bwtSpec xs).2 < xs.length ∧ (bwtSpec xs).1.Perm xs :=
+  bwtSpec_shape' xs h
+
+/-- row `t` of the sorted rotation matrix (as keys). -/
+def row (xs : List UInt8) (t : Nat) : List Nat := rotN xs ((order xs).getD t 0)
+
+/-- the buffer handed to the decoder. -/
+def lastCol (xs : List UInt8) : Array UInt8 := (bwtSpec xs).1.toArray
+
+theorem lastCol_size (xs : List UInt8) : (lastCol xs).size = xs.length := by
+  simp [lastCol, bwtSpec_eq, order_length]
+
+theorem map_range_getD {β : Type} (l : List Nat) (f : Nat → β) :
+    (List.range l.length).map (fun t => f (l.getD t 0)) = l.map f := by
+  apply List.ext_getElem
+  · simp
+  · intro k h1 h2
+    have hk : k < l.length := by simpa using h1
+    simp [List.getD_eq_getElem?_getD, List.getElem?_eq_getElem hk]
+
+theorem lastD_rotN (xs : List UInt8) (hne : xs ≠ []) (k : Nat) :
+    lastD (rotN xs k) = (xs.getD ((k + xs.length - 1) % xs.length) 0).toNat := by
+  have hn : 0 < xs.length := List.length_pos_iff.2 hne
+  have hl : (rotN xs k).length = xs.length := rotN_length xs k
+  have h1 : xs.length - 1 < (rotN xs k).length := by omega
+  have hm : (k + xs.length - 1) % xs.length < xs.length := Nat.mod_lt _ hn
+  have e : xs.length - 1 + k = k + xs.length - 1 := by omega
+  unfold lastD
+  rw [hl, List.getD_eq_getElem?_getD, List.getElem?_eq_getElem h1, Option.getD_some]
+  simp only [rotN, List.getElem_rotate, List.getElem_map, List.length_map,
+    List.getD_eq_getElem?_getD, List.getElem?_eq_getElem hm, Option.getD_some, e]
+
+theorem lastCol_getD (xs : List UInt8) (p : Nat) (hp : p < xs.length) :
+    (lastCol xs).getD p 0
+      = xs.getD (((order xs).getD p 0 + xs.length - 1) % xs.length) 0 := by
+  have hp' : p < (order xs).length := by rw [order_length]; exact hp
+  have hm : ((order xs)[p] + xs.length - 1) % xs.length < xs.length := Nat.mod_lt _ (by omega)
+  simp [lastCol, bwtSpec_eq, Array.getD_eq_getD_getElem?, List.getD_eq_getElem?_getD,
+    List.getElem?_eq_getElem hp', List.getElem?_eq_getElem hm]
+
+theorem keys_lastCol (xs : List UInt8) (hne : xs ≠ []) (p : Nat) (hp : p < xs.length) :
+    (keys (lastCol xs)).getD p 0 = lastD (row xs p) := by
+  rw [keys_getD, lastCol_getD xs p hp, row, lastD_rotN xs hne]
+
+theorem rotN_mod (xs : List UInt8) (k : Nat) : rotN xs (k % xs.length) = rotN xs k := by
+  have := List.rotate_mod (xs.map UInt8.toNat) k
+  simpa [rotN] using this
+
+theorem rotN_rotate (xs : List UInt8) (k m : Nat) : (rotN xs k).rotate m = rotN xs (k + m) := by
+  simp [rotN, List.rotate_rotate]
+
+/-- the rows are closed under rotation. -/
+theorem rows_closed (xs : List UInt8) (hne : xs ≠ []) :
+    ((List.range xs.length).map (fun t => (row xs t).rotate (xs.length - 1))).Perm
+      ((List.range xs.length).map (row xs)) := by
+  have hn : 0 < xs.length := List.length_pos_iff.2 hne
+  have e1 : (List.range xs.length).map (fun t => (row xs t).rotate (xs.length - 1))
+      = (order xs).map (fun k => (rotN xs k).rotate (xs.length - 1)) := by
+    rw [← map_range_getD (order xs), order_length]; rfl
+  have e2 : (List.range xs.length).map (row xs) = (order xs).map (rotN xs) := by
+    rw [← map_range_getD (order xs), order_length]; rfl
+  rw [e1, e2]
+  refine ((order_perm xs).map _).trans (List.Perm.trans ?_ ((order_perm xs).map _).symm)
+  have e3 : (List.range xs.length).map (fun k => (rotN xs k).rotate (xs.length - 1))
+      = ((List.range xs.length).rotate (xs.length - 1)).map (rotN xs) := by
+    apply List.ext_getElem
+    · simp
+    · intro k h1 h2
+      have hk : k < xs.length := by simpa using h1
+      simp only [List.getElem_map, List.getElem_range, List.getElem_rotate, List.length_range,
+        rotN_rotate, rotN_mod]
+  rw [e3]
+  exact (List.rotate_perm _ _).map _
+
+theorem rows_sorted (xs : List UInt8) (t t' : Nat) (h : t < t') (h' : t' < xs.length) :
+    row xs t ≤ row xs t' := by
+  have hs := List.pairwise_iff_getElem.1 (order_sorted xs)
+  have h1 : t' < (order xs).length := by rw [order_length]; exact h'
+  have h2 : t < (order xs).length := by omega
+  have := hs t t' h2 h1 h
+  simpa [row, List.getD_eq_getElem?_getD, List.getElem?_eq_getElem h1,
+    List.getElem?_eq_getElem h2] using this
+
+/-- the successor map of the decoder. -/
+def pm (xs : List UInt8) (t : Nat) : Nat := (permOf (lastCol xs)).getD t 0
+
+theorem keys_lastCol_length (xs : List UInt8) : (keys (lastCol xs)).length = xs.length := by
+  rw [keys_length, lastCol_size]
+
+theorem pm_rank (xs : List UInt8) (p : Nat) (hp : p < xs.length) :
+    pm xs (rank (keys (lastCol xs)) p) = p :=
+  permOf_rank _ p (by rw [lastCol_size]; exact hp)
+
+theorem pm_perm (xs : List UInt8) :
+    ((List.range xs.length).map (pm xs)).Perm (List.range xs.length) := by
+  have h1 := rank_perm (keys (lastCol xs))
+  rw [keys_lastCol_length] at h1
+  refine (h1.map (pm xs)).symm.trans ?_
+  rw [List.map_map]
+  have : (List.range xs.length).map (pm xs ∘ rank (keys (lastCol xs)))
+      = (List.range xs.length).map id := by
+    apply List.map_congr_left
+    intro p hp
+    exact pm_rank xs p (List.mem_range.1 hp)
+  rw [this, List.map_id]
+
+theorem pm_stable (xs : List UInt8) (hne : xs ≠ []) (t t' : Nat) (h : t < t')
+    (h' : t' < xs.length) :
+    lastD (row xs (pm xs t)) < lastD (row xs (pm xs t')) ∨
+      (lastD (row xs (pm xs t)) = lastD (row xs (pm xs t')) ∧ pm xs t < pm xs t') := by
+  have hK := keys_lastCol_length xs
+  obtain ⟨p, hp, rfl⟩ := rank_surj (keys (lastCol xs)) (t := t) (by omega)
+  obtain ⟨p', hp', rfl⟩ := rank_surj (keys (lastCol xs)) (t := t') (by omega)
+  rw [hK] at hp hp'
+  rw [pm_rank xs p hp, pm_rank xs p' hp', ← keys_lastCol xs hne p hp,
+    ← keys_lastCol xs hne p' hp']
+  exact lt_of_rank_lt _ (by omega) (by omega) h
+
+/-- **LF mapping**: the decoder's successor of a row is the row rotated by one. -/
+theorem row_pm (xs : List UInt8) (hne : xs ≠ []) (t : Nat) (ht : t < xs.length) :
+    row xs (pm xs t) = (row xs t).rotate 1 :=
+  lf_abstract xs.length (List.length_pos_iff.2 hne) (row xs) (pm xs)
+    (fun _ _ => rotN_length xs _) (rows_sorted xs) (rows_closed xs hne) (pm_perm xs)
+    (pm_stable xs hne) t ht
+
+theorem pm_lt (xs : List UInt8) (t : Nat) (ht : t < xs.length) : pm xs t < xs.length := by
+  have : pm xs t ∈ (List.range xs.length).map (pm xs) :=
+    List.mem_map.2 ⟨t, List.mem_range.2 ht, rfl⟩
+  exact List.mem_range.1 ((pm_perm xs).mem_iff.1 this)
+
+/-- following the successor map from a row that is rotation `m + 1` emits the
+    input from position `m`. -/
+theorem chase_spec (xs : List UInt8) (hne : xs ≠ []) : ∀ (k m i : Nat) (acc : Array UInt8),
+    i < xs.length → row xs i = rotN xs (m + 1) →
+    bwtDecode.chase (lastCol xs) (permOf (lastCol xs)) k i acc
+      = acc ++ ((List.range k).map (fun d => xs.getD ((m + d) % xs.length) 0)).toArray := by
+  have hn : 0 < xs.length := List.length_pos_iff.2 hne
+  intro k
+  induction k with
+  | zero => intro m i acc _ _; simp [bwtDecode.chase]
+  | succ k ih =>
+    intro m i acc hi hrow
+    have hb : (lastCol xs).getD i 0 = xs.getD (m % xs.length) 0 := by
+      apply UInt8.toNat_inj.1
+      have h1 := keys_lastCol xs hne i hi
+      rw [keys_getD, hrow, lastD_rotN xs hne] at h1
+      rw [h1]
+      congr 2
+      rw [show m + 1 + xs.length - 1 = m + xs.length by omega, Nat.add_mod_right]
+    have hnext : row xs (pm xs i) = rotN xs (m + 1 + 1) := by
+      rw [row_pm xs hne i hi, hrow, rotN_rotate]
+    rw [bwtDecode.chase]
+    have := ih (m + 1) (pm xs i) (acc.push ((lastCol xs).getD i 0)) (pm_lt xs i hi) hnext
+    rw [pm] at this
+    rw [this, hb, List.range_succ_eq_map]
+    apply Array.ext'
+    simp [Function.comp_def, Nat.add_assoc, Nat.add_comm 1]
 
 /-- **Inverse BWT.** `bwt.Decode` applied to the last column of the sorted
     rotations and the row of the original string returns the original string. -/
 theorem bwt_inverse (xs : List UInt8) (h : xs ≠ []) :
     bwtDecode (bwtSpec xs).1.toArray (bwtSpec xs).2 = xs.toArray := by
-  sorry
+  have hn : 0 < xs.length := List.length_pos_iff.2 h
+  obtain ⟨hptr, hzero⟩ := ptr_spec xs h
+  change bwtDecode (lastCol xs) (bwtSpec xs).2 = xs.toArray
+  rw [bwtDecode_eq, if_neg (by rw [lastCol_size]; omega), lastCol_size]
+  have hrow0 : row xs (bwtSpec xs).2 = rotN xs 0 := by rw [row, hzero]
+  have hrow1 : row xs (pm xs (bwtSpec xs).2) = rotN xs (0 + 1) := by
+    rw [row_pm xs h _ hptr, hrow0, rotN_rotate]
+  have := chase_spec xs h xs.length 0 (pm xs (bwtSpec xs).2) #[] (pm_lt xs _ hptr) hrow1
+  rw [pm] at this
+  rw [this]
+  apply Array.ext'
+  simp only [Nat.zero_add, Array.empty_append]
+  apply List.ext_getElem
+  · simp
+  · intro k h1 h2
+    have hk : k < xs.length := by simpa using h1
+    simp [Nat.mod_eq_of_lt hk, List.getD_eq_getElem?_getD, List.getElem?_eq_getElem hk]
 
 end Compress.Proofs.Bzip2BWT
